@@ -27,11 +27,22 @@ impl Style {
     pub fn new(rng: Rng) -> Style {
         Style { rng, ws_text_only: false }
     }
+    fn long_text(&mut self) -> String {
+        let n = self.rng.range(20, 150);
+        let alphabet = ['a', 'b', ' ', 'é', 'Ж', 'ß', 'x', '1', '\n', 'ü', '.', 'ö'];
+        (0..n).map(|_| *self.rng.pick(&alphabet)).collect()
+    }
     fn text(&mut self) -> String {
-        let opts: &[&str] = if self.ws_text_only { &[" ", "\n", "\n  ", "\t"] } else { &["t", "some text", " ", "\n  ", "1 &lt; 2", "x&amp;y", "Ünï", "0"] };
+        if !self.ws_text_only && self.rng.chance(1, 10) {
+            return self.long_text();
+        }
+        let opts: &[&str] = if self.ws_text_only { &[" ", "\n", "\n  ", "\t"] } else { &["t", "some text", " ", "\n  ", "1 &lt; 2", "x&amp;y", "Ünï", "0", "&company;", "AT&T", "&nbsp;", "&#xZZ; &", "]]>", "&#169;"] };
         self.rng.pick(opts).to_string()
     }
     fn cdata(&mut self) -> String {
+        if self.rng.chance(1, 10) {
+            return format!("<![CDATA[{}]]>", self.long_text());
+        }
         let opts = ["<![CDATA[c]]>", "<![CDATA[]]>", "<![CDATA[ <b>not a tag</b> ]]>", "<![CDATA[&amp;]]>"];
         self.rng.pick(&opts).to_string()
     }
@@ -40,7 +51,7 @@ impl Style {
         self.rng.pick(&opts).to_string()
     }
     fn value(&mut self) -> String {
-        let opts = ["", "v", "1", "a b", "&amp;", "x=y", "<", "Ж"];
+        let opts = ["", "v", "1", "a b", "&amp;", "x=y", "<", "Ж", "&ent;", "a&b", ">", "/"];
         let v = self.rng.pick(&opts).to_string();
         // '<' is accepted by quick-xml inside a quoted value
         if self.rng.chance(1, 2) {
